@@ -1262,6 +1262,42 @@ func (g *vGen) violate(which string, s *vDocSpec) {
 	}
 }
 
+// an otherwise well-formed document for key k under an arbitrary DID (all entry ids use that DID)
+func vDocUnderDID(k *vKey, didStr string) vDocSpec {
+	s := vDocSpec{ID: didStr, Ctx: []string{vDidCtx, vJwsCtx}, Rels: map[string][]interface{}{}}
+	id := didStr + "#" + k.b64
+	s.VMs = append(s.VMs, vVMSpec{ID: id, Key: k})
+	s.Rels["capabilityInvocation"] = append(s.Rels["capabilityInvocation"], id)
+	s.Rels["assertionMethod"] = append(s.Rels["assertionMethod"], id)
+	return s
+}
+
+// creation whose DID is a proper prefix (n > 0: first n characters; n < 0: all but the last -n) or an extension
+// (ext != "") of the embedded key's thumbprint
+func (g *vGen) createNearDID(kind string, k *vKey, n int, ext string) *vPair {
+	id := k.b58 + ext
+	if ext == "" {
+		if n > 0 && n < len(k.b58) {
+			id = k.b58[:n]
+		} else if n < 0 && -n < len(k.b58) {
+			id = k.b58[:len(k.b58)+n]
+		}
+	}
+	spec := vDocUnderDID(k, "did:nuts:"+id)
+	prevs := g.randomPrevsForCreate()
+	return g.emit(kind, spec.payload(), vSignSpec{key: k, kid: k.did + "#" + k.b64, attach: k, prevs: prevs, clock: g.clockFor(prevs)}, func(ok bool, tx dag.Transaction) {
+		if ok {
+			d := g.dids[spec.ID]
+			if d == nil {
+				d = &vDid{key: k}
+				g.dids[spec.ID] = d
+				g.order = append(g.order, spec.ID)
+			}
+			d.versions = append(d.versions, vVersion{spec: spec.clone(), ref: tx.Ref(), clock: tx.Clock(), time: tx.SigningTime().Unix()})
+		}
+	})
+}
+
 // ---- scenario steps. Each returns the emitted pair (bookkeeping runs when the outcome is known).
 
 func (g *vGen) stepRandom() *vPair {
@@ -1288,6 +1324,20 @@ func (g *vGen) stepRandom() *vPair {
 			f := g.freshKey()
 			s.key, s.attach, s.kid = f, f, k.did+"#"+f.b64
 		})
+	case r < 21: // the DID is a truncated / extended form of the embedded key's thumbprint, the document otherwise well-formed
+		k := g.freshKey()
+		switch g.rng.Intn(5) {
+		case 0:
+			return g.createNearDID("create-did-prefix-of-thumbprint", k, 1, "")
+		case 1:
+			return g.createNearDID("create-did-prefix-of-thumbprint", k, -1, "")
+		case 2:
+			return g.createNearDID("create-did-prefix-of-thumbprint", k, 2+g.rng.Intn(len(k.b58)-3), "")
+		case 3:
+			return g.createNearDID("create-did-extension-of-thumbprint", k, 0, "A")
+		default:
+			return g.createNearDID("create-did-extension-of-thumbprint", k, 0, k.b58[:3])
+		}
 	case r < 23: // embedded key differs from the key that signs
 		return g.create("create-embedded-not-signer", nil, nil, func(s *vSignSpec, k *vKey) {
 			s.key = g.freshKey()
@@ -1755,6 +1805,22 @@ func vScenario(g *vGen, kind string, run func(p *vPair) bool) {
 				return a, e.latest().spec.ID + "#" + a.b64, []hash.SHA256Hash{e.latest().ref}
 			}}))
 		}
+	case kind == "did-prefix":
+		// DIDs that are proper prefixes / extensions of the embedded key's thumbprint; two unrelated keys whose
+		// thumbprints share the first character both try to create that one-character DID
+		k := g.freshKey()
+		for _, n := range []int{1, 2, len(k.b58) / 2, -2, -1} {
+			run(g.createNearDID("create-did-prefix-of-thumbprint", g.freshKey(), n, ""))
+		}
+		run(g.createNearDID("create-did-extension-of-thumbprint", g.freshKey(), 0, "1"))
+		run(g.createNearDID("create-did-prefix-of-thumbprint", k, 1, ""))
+		for tries := 0; tries < 80; tries++ {
+			k2 := g.freshKey()
+			if k2.b58[0] == k.b58[0] {
+				run(g.createNearDID("create-did-prefix-of-thumbprint", k2, 1, ""))
+				break
+			}
+		}
 	case kind == "key-swap":
 		// an id that was accepted with key K later carries the key material of K'
 		run(g.create("ks:create", nil, func(s *vDocSpec, k *vKey) {
@@ -1883,7 +1949,7 @@ func TestVerifC09(t *testing.T) {
 	}
 	rng := rand.New(rand.NewSource(seed*7919 + 9))
 	scripted := []string{"chain0", "chain1", "chain2", "chain3", "chain4", "chain5", "chain6", "cycle1", "cycle2", "cycle3", "cycle5",
-		"deactivated-controller", "removed-key", "validator-sweep", "embedded-capinv", "handed-over", "key-swap"}
+		"deactivated-controller", "removed-key", "validator-sweep", "embedded-capinv", "handed-over", "key-swap", "did-prefix"}
 	for h := 0; h < nHist; h++ {
 		kind := "mixed"
 		if h%2 == 0 {
